@@ -211,9 +211,10 @@ class QuotientFilter:
             int: The next hash stored in the quotient filter"""
         queue: List[int] = []
 
-        # find first empty location
+        # find first empty location; a completely full filter has none, so the start of a cluster
+        # (which always exists in a non-empty filter) serves equally well
         start = 0
-        while not self._is_empty_element(start):
+        while not self._is_empty_element(start) and not self._is_cluster_start(start):
             start += 1
 
         cur_quot = 0
